@@ -252,10 +252,11 @@ def emit_stmts(o, names, stmts):
         elif k == "dist":
             ws = []
             for w in s["weights"]:
+                wv = emit_expr(o, names, w["w"])
                 if "single" in w:
-                    ws.append(vsc.weight(w["single"], w["w"]))
+                    ws.append(vsc.weight(emit_expr(o, names, w["single"]), wv))
                 else:
-                    ws.append(vsc.weight((w["lo"], w["hi"]), w["w"]))
+                    ws.append(vsc.weight((emit_expr(o, names, w["lo"]), emit_expr(o, names, w["hi"])), wv))
             vsc.dist(emit_expr(o, names, s["e"]), ws)
         else:
             raise Exception("emit_stmts: " + k)
